@@ -145,3 +145,122 @@ Proof.
   rewrite Z.min_r by lia. rewrite shift_pos_value.
   replace (e - (e - Zpos d)) with (Zpos d) by lia. rewrite Z.sub_diag. cbn [Z.pow]. lia.
 Qed.
+
+(* ---- the codec ------------------------------------------------------------------------- *)
+
+Inductive sf_valid32 : spec_float -> Prop :=
+  | v32_zero : forall s, sf_valid32 (S754_zero s)
+  | v32_inf : forall s, sf_valid32 (S754_infinity s)
+  | v32_nan : sf_valid32 S754_nan
+  | v32_fin : forall s m e, valid32 m e -> sf_valid32 (S754_finite s m e).
+
+Lemma b32_consts : fwidth b32 = 32 /\ mbits b32 = 23 /\ f_ebits b32 = 8 /\ emask b32 = 255 /\
+  bias b32 = 127 /\ femin b32 = -149.
+Proof. repeat split. Qed.
+
+Lemma b64_consts : fwidth b64 = 64 /\ mbits b64 = 52 /\ f_ebits b64 = 11 /\ emask b64 = 2047 /\
+  bias b64 = 1023 /\ femin b64 = -1074.
+Proof. repeat split. Qed.
+
+Theorem decode32_valid : forall a, fvalid b32 a -> sf_valid32 (decode b32 a).
+Proof.
+  intros a Ha. unfold fvalid in Ha.
+  destruct b32_consts as (W & Mb & Eb & Em & Bi & Fm).
+  rewrite W in Ha. unfold decode. rewrite W, Mb, Eb, Em, Bi, Fm.
+  rewrite (Z.mod_small a (2 ^ 32)) by lia.
+  set (E := (a / 2 ^ 23) mod 2 ^ 8). set (M := a mod 2 ^ 23).
+  assert (HE : 0 <= E < 2 ^ 8) by (apply Z.mod_pos_bound; lia).
+  assert (HM : 0 <= M < 2 ^ 23) by (apply Z.mod_pos_bound; lia).
+  destruct (E =? 0) eqn:E0.
+  - destruct M as [|m|m] eqn:EM; try constructor.
+    right. split; [|reflexivity].
+    pose proof (digits_upper m 23 ltac:(lia) ltac:(lia)). lia.
+  - apply Z.eqb_neq in E0. destruct (E =? 255) eqn:E1.
+    + destruct (M =? 0); constructor.
+    + apply Z.eqb_neq in E1.
+      destruct (M + 2 ^ 23) as [|m|m] eqn:EM; try constructor.
+      left. split.
+      * apply (digits_bounds m 23); [lia|]. change (2 ^ (23 + 1)) with (2 * 2 ^ 23). lia.
+      * change (2 ^ 8) with 256 in HE. lia.
+Qed.
+
+(* decode after encode on a binary64 normal number *)
+Lemma decode_encode_b64_normal : forall s m e,
+  2 ^ 52 <= Zpos m < 2 ^ 53 -> -1022 - 52 <= e <= 1023 - 52 ->
+  decode b64 (encode b64 (S754_finite s m e)) = S754_finite s m e.
+Proof.
+  intros s m e Hm He.
+  destruct b64_consts as (W & Mb & Eb & Em & Bi & Fm).
+  unfold encode. rewrite Mb, Bi.
+  assert (L : (2 ^ 52 <=? Zpos m) = true) by (apply Z.leb_le; lia). rewrite L.
+  set (K := e + 1023 + 52). set (F := Zpos m - 2 ^ 52).
+  assert (HK : 1 <= K <= 2046) by (unfold K; lia).
+  assert (HF : 0 <= F < 2 ^ 52) by (unfold F; change (2 ^ 53) with (2 * 2 ^ 52) in Hm; lia).
+  set (S := sign_bit b64 s).
+  assert (HS : S = (if s then 2 ^ 11 else 0) * 2 ^ 52).
+  { unfold S, sign_bit. rewrite W. destruct s; reflexivity. }
+  set (u := S + K * 2 ^ 52 + F).
+  assert (Hu : 0 <= u < 2 ^ 64).
+  { unfold u. rewrite HS. change (2 ^ 64) with (2 ^ 12 * 2 ^ 52). destruct s; nia. }
+  unfold decode. rewrite W, Mb, Eb, Em, Bi.
+  rewrite (Z.mod_small u (2 ^ 64)) by lia.
+  assert (Udiv : u / 2 ^ 52 = (if s then 2 ^ 11 else 0) + K).
+  { symmetry. apply Z.div_unique with (r := F); [lia|]. unfold u. rewrite HS. lia. }
+  assert (Umod : u mod 2 ^ 52 = F).
+  { symmetry. apply Z.mod_unique with (q := (if s then 2 ^ 11 else 0) + K); [lia|].
+    unfold u. rewrite HS. lia. }
+  assert (Emod : (u / 2 ^ 52) mod 2 ^ 11 = K).
+  { rewrite Udiv. symmetry.
+    apply Z.mod_unique with (q := if s then 1 else 0); [change (2 ^ 11) with 2048; lia|].
+    destruct s; lia. }
+  rewrite Emod, Umod.
+  assert (Sg : (2 ^ (64 - 1) <=? u) = s).
+  { unfold u. rewrite HS. change (2 ^ (64 - 1)) with (2 ^ 11 * 2 ^ 52).
+    destruct s; [apply Z.leb_le | apply Z.leb_gt]; nia. }
+  rewrite Sg.
+  assert (K0 : (K =? 0) = false) by (apply Z.eqb_neq; lia). rewrite K0.
+  assert (K1 : (K =? 2047) = false) by (apply Z.eqb_neq; lia). rewrite K1.
+  replace (F + 2 ^ 52) with (Zpos m) by (unfold F; lia).
+  f_equal. unfold K. lia.
+Qed.
+
+Lemma decode_encode_b64_special : forall x,
+  match x with S754_finite _ _ _ => False | _ => True end ->
+  decode b64 (encode b64 x) = x.
+Proof. intros [s|s| |s m e] H; try contradiction; try destruct s; reflexivity. Qed.
+
+Lemma widen_normal64 : forall s m e, valid32 m e ->
+  exists m' e', widen (S754_finite s m e) = S754_finite s m' e' /\
+    2 ^ 52 <= Zpos m' < 2 ^ 53 /\ -1022 - 52 <= e' <= 1023 - 52.
+Proof.
+  intros s m e V.
+  assert (Hd : 1 <= Zpos (digits2_pos m) <= 24) by (destruct V as [[D _]|[D _]]; lia).
+  unfold widen. destruct (53 - Zpos (digits2_pos m)) as [|d|d] eqn:Ed; try lia.
+  exists (shift_pos d m), (e - Zpos d). split; [reflexivity|]. split.
+  - pose proof (digits_range (shift_pos d m)) as R. rewrite digits_shift in R.
+    replace (Zpos (digits2_pos m) + Zpos d) with 53 in R by lia. exact R.
+  - destruct V as [[D E]|[D E]]; lia.
+Qed.
+
+Theorem conv_float_double_exact : forall a, fvalid b32 a ->
+  same_value (decode b32 a) (decode b64 (f2d a)) /\ d2f (f2d a) = canon b32 a.
+Proof.
+  intros a Ha. unfold f2d, d2f, canon.
+  pose proof (decode32_valid a Ha) as V.
+  destruct V as [s|s| |s m e V].
+  - cbn [widen]. rewrite decode_encode_b64_special by exact I. cbn. auto.
+  - cbn [widen]. rewrite decode_encode_b64_special by exact I. cbn. auto.
+  - cbn [widen]. rewrite decode_encode_b64_special by exact I. cbn. auto.
+  - destruct (widen_normal64 s m e V) as (m' & e' & W & Hm & He).
+    pose proof (widen_same_value s m e V) as SV.
+    pose proof (narrow_widen s m e V) as NW.
+    rewrite W in *. rewrite (decode_encode_b64_normal s m' e' Hm He).
+    split; [exact SV | now rewrite NW].
+Qed.
+
+(* the canonical form changes nothing but NaN payloads *)
+Theorem conv_preserves_nan_class : forall a, is_nan b32 a = true -> d2f (f2d a) = qnan b32.
+Proof.
+  intros a H. unfold is_nan in H. unfold f2d, d2f.
+  destruct (decode b32 a); try discriminate. reflexivity.
+Qed.
